@@ -803,6 +803,11 @@ func extParseInt(fr *frame, a []value) value {
 			return tuple{int64(0), errValue("strconv.ParseInt: value out of range")}
 		}
 	}
+	if ss, ok := a[0].(symstr); ok && base == 10 && bitSize == 64 {
+		if x, ok := decOriginOf(ss.b); ok {
+			return tuple{fromTerm(types.Typ[types.Int64], x), iface{}}
+		}
+	}
 	return notHandled // interpret the stdlib body
 }
 
